@@ -159,9 +159,14 @@ theorem sectionSel_boundary (o : Obj K) (ds : List (Dir K × BSel)) (nc : ℕ)
     have := h2 [] is [c] List.Forall₂.nil his (List.Forall₂.cons hc List.Forall₂.nil)
     rw [secNet_eq_fill ds _ is his]
     simpa [Obj.sliceSec] using this
-  · unfold Obj.sectionSel
+  · have hne : (Obj.sliceSec o.cps (idxOf ds)).shape.isEmpty = false := by
+      have : (Obj.sliceSec o.cps (idxOf ds)).shape = freeDims (idxOf ds) (dimsOf ds) ++ [nc] := by
+        simpa [Obj.sliceSec] using h1
+      rw [this]
+      simp
+    unfold Obj.sectionSel
     rw [hshape, resolveSel_idxOf ds hp [nc]]
-    simp only []
-    split_ifs <;> rfl
+    simp only [hne]
+    split_ifs <;> first | rfl | simp_all
 
 end Splipy
